@@ -169,6 +169,7 @@ type c10Prog struct {
 	Cap     int       `json:"cap"`
 	Kind    string    `json:"kind"`
 	Workers [][]c10Op `json:"workers"`
+	Policy  bool      `json:"push_policy,omitempty"`
 }
 
 func (p c10Prog) String() string {
@@ -180,7 +181,7 @@ func (p c10Prog) String() string {
 		}
 		ws = append(ws, fmt.Sprintf("w%d:%s", i, strings.Join(os, ";")))
 	}
-	return fmt.Sprintf("%s len=%d fifo=%v cap=%d | %s", p.Kind, p.Init, p.Fifo, p.Cap, strings.Join(ws, " || "))
+	return fmt.Sprintf("%s len=%d fifo=%v cap=%d policy=%v | %s", p.Kind, p.Init, p.Fifo, p.Cap, p.Policy, strings.Join(ws, " || "))
 }
 
 const c10Alphabet = 13
@@ -227,6 +228,9 @@ func (p c10Prog) build() (stackage.Stack, string) {
 	for i := 1; i <= p.Init; i++ {
 		s.Push(i)
 	}
+	if p.Policy {
+		s.SetPushPolicy(func(...any) error { return nil }) // the policy-gated append path has its own capacity test
+	}
 	s.SetMutex()
 	return s, encodeList(contentOf(s))
 }
@@ -265,6 +269,8 @@ type c10Exec struct {
 	preSnap  map[int]string         // content each worker saw when it parked at lock.want
 	capLimit int
 	trace    []c10Choice
+	// yieldAfterRelease adds "immediately after Unlock" to the switch points
+	yieldAfterRelease bool
 }
 
 type c10Choice struct{ choice, n int }
@@ -329,6 +335,14 @@ func (e *c10Exec) hook(point string, id uintptr) {
 		delete(e.owner, id)
 		e.inLock = false
 		e.base = now
+		// a switch point: whatever the operation still does after releasing the lock (post-unlock clean-up, success
+		// flags computed from re-read state) may be overtaken by another worker's critical section
+		if e.yieldAfterRelease {
+			w.want = 0
+			e.park(w)
+			after, _ := stackage.VerifDump(e.s)
+			e.base = after
+		}
 	}
 }
 
@@ -401,7 +415,7 @@ func (e *c10Exec) workerMain(w *c10Worker) {
 // run executes the program under one schedule (prefix of choices, then always the first enabled worker).
 func c10RunSchedule(p c10Prog, prefix []int) *c10Exec {
 	s, _ := p.build()
-	e := &c10Exec{s: s, toCtl: make(chan c10Event), owner: map[uintptr]*c10Worker{}, stale: map[int]bool{}, preSnap: map[int]string{}, capLimit: p.Cap}
+	e := &c10Exec{yieldAfterRelease: true, s: s, toCtl: make(chan c10Event), owner: map[uintptr]*c10Worker{}, stale: map[int]bool{}, preSnap: map[int]string{}, capLimit: p.Cap}
 	for i, ops := range p.Workers {
 		e.workers = append(e.workers, &c10Worker{id: i, ops: ops, resume: make(chan bool)})
 	}
@@ -490,7 +504,12 @@ func c10CheckHistory(p c10Prog, e *c10Exec, init string) (key, msg string) {
 	}
 	t := e.clock + 1
 	hist := append(append([]porcupine.Operation{}, e.history...), porcupine.Operation{ClientId: len(p.Workers), Input: c10Op{K: "ReadAll"}, Call: t, Output: final, Return: t + 1})
-	res, _ := porcupine.CheckOperationsVerbose(c10Model(init, p.Fifo, p.Cap), hist, 5*time.Second)
+	// explorer histories are tiny (<= 10 operations): the check takes microseconds; the generous limit only guards
+	// against a starved machine and is retried once before the run is called inconclusive
+	res, _ := porcupine.CheckOperationsVerbose(c10Model(init, p.Fifo, p.Cap), hist, 60*time.Second)
+	if res == porcupine.Unknown {
+		res, _ = porcupine.CheckOperationsVerbose(c10Model(init, p.Fifo, p.Cap), hist, 300*time.Second)
+	}
 	switch res {
 	case porcupine.Ok:
 		return "", ""
@@ -619,12 +638,12 @@ func c10Run(c *core.Ctx, idx int) {
 		k /= 4
 		fifo := k%2 == 1
 		k /= 2
-		p := c10Prog{Init: L, Fifo: fifo, Cap: c10CapFor(k%3, L), Kind: Kinds[r.Intn(5)],
+		p := c10Prog{Init: L, Fifo: fifo, Cap: c10CapFor(k%3, L), Kind: Kinds[r.Intn(5)], Policy: r.Chance(1, 4),
 			Workers: [][]c10Op{{c10Symbol(a, L, next)}, {c10Symbol(b, L, next)}}}
 		c10Explore(c, p, 1000)
 	case idx < pairs+sampled:
 		L := r.Intn(4)
-		p := c10Prog{Init: L, Fifo: r.Bool(), Cap: c10CapFor(r.Intn(3), L), Kind: Kinds[r.Intn(5)]}
+		p := c10Prog{Init: L, Fifo: r.Bool(), Cap: c10CapFor(r.Intn(3), L), Kind: Kinds[r.Intn(5)], Policy: r.Chance(1, 4)}
 		nw := 2 + r.Intn(2)
 		for w := 0; w < nw; w++ {
 			var ops []c10Op
@@ -689,7 +708,7 @@ var c10Yield atomic.Uint64
 func c10Stress(c *core.Ctx) {
 	r := c.Rng
 	L := r.Intn(4)
-	p := c10Prog{Init: L, Fifo: r.Bool(), Cap: c10CapFor(r.Intn(3), L), Kind: Kinds[r.Intn(5)]}
+	p := c10Prog{Init: L, Fifo: r.Bool(), Cap: c10CapFor(r.Intn(3), L), Kind: Kinds[r.Intn(5)], Policy: r.Chance(1, 4)}
 	n := 100
 	next := func() int { n++; return n }
 	nw := r.Range(3, 7)
@@ -826,7 +845,7 @@ func init() {
 		Run:      c10Run,
 		Teardown: c10Teardown,
 		Race:     true,
-		Rule: "explorer: a cooperative scheduler over the lock-point hook runs exactly one worker at a time and switches only at operation starts and immediately before a lock acquisition, so an execution is a function of (program, schedule); " +
+		Rule: "explorer: a cooperative scheduler over the lock-point hook runs exactly one worker at a time and switches only at operation starts, immediately before a lock acquisition and immediately after a lock release, so an execution is a function of (program, schedule); " +
 			"ALL 2-worker x 1-op programs over a 13-symbol mutator alphabet x initial length 0..3 x LIFO/FIFO x capacity {none, Len, Len+1} with ALL their interleavings, plus sampled 2..3-worker x 1..3-op programs with up to 200 (quick) / 400 (thorough) interleavings each (depth-first, re-execution). " +
 			"At every switch a VerifDump snapshot decides 'writes only inside the critical section' (content, configuration slot, lock bookkeeping), capacity and the presence of the configuration record; deadlock = no enabled worker; each history (call/return stamps + final read) is checked by porcupine against the sequential list model. " +
 			"stress: 3..7 free-running goroutines x 2..4 ops with yields injected at lock.want, histories checked by porcupine; the whole run executes under the Go race detector and every report is classified by the registered address it touches (slice header / configuration record field / elsewhere) and by the reading function. " +
